@@ -49,6 +49,9 @@ type smOp struct {
 type smCase struct {
 	Cfg smCfg  `json:"cfg"`
 	Ops []smOp `json:"ops"`
+	// Crash: the process "dies" after the Crash-th eligible store write of the
+	// state machine (0 = never). Used by the C10 / C07 state-machine units.
+	Crash int `json:"crash,omitempty"`
 }
 
 // ---------------------------------------------------------------------------
@@ -166,6 +169,13 @@ type world struct {
 	entrances []*entranceRec
 
 	flags []string // discipline violations detected inside components (e.g. two timers)
+
+	// crash point: the machine's goroutine parks inside the crashAt-th eligible store write
+	crashAt       int
+	writes        int // eligible store writes so far (whole case)
+	crashed       bool
+	crashKind     string
+	midTransition bool // the write the process died in was followed by another write in the crash-free run of the same handler
 }
 
 type smEvent struct {
@@ -179,6 +189,7 @@ type smEvent struct {
 	B     []byte // sign content (signer events) or signature (store / action events)
 	G     []byte // signature (signer events)
 	Err   string
+	Elig  int // ordinal of this store write among the eligible crash points (0 = not one)
 }
 
 func (e smEvent) String() string {
@@ -299,7 +310,12 @@ func (w *world) valsAt(h uint64) *valInfo {
 	for i := 0; i < n; i++ {
 		p := base[i]
 		if changed {
-			switch w.cfg.ValMode % 4 {
+			switch w.cfg.ValMode % 5 {
+			case 4: // keys and powers change at every height: one member (rotating, may be the machine) is out, powers shift
+				if n >= 3 && (i+int(h))%n == 0 {
+					continue
+				}
+				p = base[(i+int(h))%n] + h%3
 			case 1: // powers rotate
 				p = base[(i+int(h))%n]
 			case 2: // one validator (rotating, may be the machine) is dropped
@@ -532,6 +548,30 @@ type hActionStore struct {
 	inner *tmmemstore.ActionStore
 }
 
+// storeWrite is called by the store wrappers after a write persisted. When the
+// write is the chosen crash point the calling goroutine (the machine's kernel)
+// parks until the incarnation is torn down: nothing later reaches the stores.
+func (w *world) storeWrite(ctx context.Context, kind string, err error, eligible bool) error {
+	if err != nil || !eligible {
+		return err
+	}
+	w.mu.Lock()
+	w.writes++
+	w.log[len(w.log)-1].Elig = w.writes
+	die := w.crashAt > 0 && w.writes == w.crashAt && !w.crashed
+	if die {
+		w.crashed = true
+		w.crashKind = kind
+		w.evLocked("crash-after-"+kind, 0, 0, "", nil, nil)
+	}
+	w.mu.Unlock()
+	if die {
+		<-ctx.Done()
+		return ctx.Err()
+	}
+	return nil
+}
+
 // peekActions takes whatever the machine has already emitted, so that an
 // action emitted before its save shows up earlier in the event order.
 func (s *hActionStore) peekActions() {
@@ -542,9 +582,13 @@ func (s *hActionStore) peekActions() {
 
 func (s *hActionStore) SaveProposedHeaderAction(ctx context.Context, ph tmconsensus.ProposedHeader) error {
 	s.peekActions()
+	// A restart in a round that already holds a recorded vote is the known finding
+	// C02-RESIGN: such a write is not an eligible crash point.
+	ra, lerr := s.inner.LoadActions(ctx, ph.Header.Height, ph.Round)
+	eligible := lerr != nil || (ra.PrevoteSignature == "" && ra.PrecommitSignature == "")
 	err := s.inner.SaveProposedHeaderAction(ctx, ph)
 	s.w.ev("save-proposal", ph.Header.Height, ph.Round, string(ph.Header.Hash), ph.Signature, err)
-	return err
+	return s.w.storeWrite(ctx, "save-proposal", err, eligible)
 }
 
 func (s *hActionStore) SavePrevoteAction(ctx context.Context, pk gcrypto.PubKey, vt tmconsensus.VoteTarget, sig []byte) error {
@@ -575,7 +619,7 @@ type hFinStore struct {
 func (s *hFinStore) SaveFinalization(ctx context.Context, h uint64, r uint32, blockHash string, vs tmconsensus.ValidatorSet, app string) error {
 	err := s.inner.SaveFinalization(ctx, h, r, blockHash, vs, app)
 	s.w.ev("save-fin", h, r, blockHash, nil, err)
-	return err
+	return s.w.storeWrite(ctx, "save-fin", err, true)
 }
 
 func (s *hFinStore) LoadFinalizationByHeight(ctx context.Context, h uint64) (uint32, string, tmconsensus.ValidatorSet, string, error) {
@@ -592,7 +636,7 @@ type hSMStore struct {
 func (s *hSMStore) SetStateMachineHeightRound(ctx context.Context, h uint64, r uint32) error {
 	err := s.inner.SetStateMachineHeightRound(ctx, h, r)
 	s.w.ev("set-hr", h, r, "", nil, err)
-	return err
+	return s.w.storeWrite(ctx, "set-hr", err, true)
 }
 
 func (s *hSMStore) StateMachineHeightRound(ctx context.Context) (uint64, uint32, error) {
